@@ -122,6 +122,22 @@ func c07layouter(c *mon.Ctx) {
 			s := string(rs)
 			k.Step(fmt.Sprintf("Layout %q", s))
 			var a, b []glyph.Info
+			if i%3 == 1 {
+				// the same text twice in a row ("measure, then draw"); the
+				// first result is the caller's, who spaces it out in place
+				if c07try(k, "Layouter.Layout", func() {
+					first := reused.Layout(s)
+					for j := range first {
+						first[j].GID = 0xFFFF
+						first[j].Advance += 1000
+						first[j].XOffset -= 77
+						first[j].Text = append(first[j].Text, 'x')
+					}
+				}) {
+					return
+				}
+				k.Class("layouter:same-text-again-after-the-result-was-edited")
+			}
 			if c07try(k, "Layouter.Layout", func() { a = c06copy(reused.Layout(s)) }) {
 				return
 			}
